@@ -38,6 +38,7 @@ def main():
             srcroot = sys.argv[i + 1]
         if a == "--prefix":
             prefix = sys.argv[i + 1]
+    via_worktree = "--via-worktree" in sys.argv
     src = "%s/%s" % (srcroot, pid)
     patch, demo, notes = ("%s/%s%s%s" % (src, n, k, e) for n, e in (("patch", ".diff"), ("demo", ".py"), ("notes", ".json")))
     meta = {"property": pid, "variant": int(k), "author": "independent sub-agent (saw only the property text and a scratch worktree)"}
@@ -46,7 +47,7 @@ def main():
     except Exception as e:  # noqa
         meta["notes_error"] = repr(e)
     rc, out = sh("git status --porcelain --untracked-files=no", cwd="/repo")
-    if out.strip():
+    if out.strip() and not via_worktree:
         print("REFUSING: /repo has local modifications:\n" + out)
         return 2
     # ---- step 1: confirm in a scratch worktree
@@ -83,7 +84,16 @@ def main():
         env["VERIF_EVIDENCE_DIR"] = os.path.join(tmp, "evidence")
         env["VERIF_REPLAY_DIR"] = os.path.join(tmp, "replays")
         env["VERIF_SEED"] = env.get("VERIF_SEED", "0")
-        rc, out = sh("git -C /repo apply %s" % patch)
+        wt2 = None
+        if via_worktree:
+            # /repo is in use by other runs: the patched tree is a scratch worktree that the check imports through PYTHONPATH
+            wt2 = tempfile.mkdtemp(prefix="vp-seed-wt-")
+            os.rmdir(wt2)
+            sh("git -C /repo worktree add --detach %s HEAD" % wt2)
+            rc, out = sh("git apply %s" % patch, cwd=wt2)
+            env["PYTHONPATH"] = wt2
+        else:
+            rc, out = sh("git -C /repo apply %s" % patch)
         try:
             for c in checks:
                 t0 = time.time()
@@ -94,11 +104,15 @@ def main():
                 lines = [l for l in out.splitlines() if l.startswith(("VIOLATION", "HARNESS-ERROR", "INCONCLUSIVE", "    case=")) or " tier=" in l]
                 det[c] = {"exit": rc, "wall_s": round(time.time() - t0), "lines": [l[:400] for l in lines[:8]]}
         finally:
-            sh("git -C /repo checkout -- .")
+            if via_worktree:
+                sh("git -C /repo worktree remove --force %s" % wt2)
+                shutil.rmtree(wt2, ignore_errors=True)
+            else:
+                sh("git -C /repo checkout -- .")
             shutil.rmtree(tmp, ignore_errors=True)
     meta["detection"] = det
     meta["caught_by"] = [c for c, d in det.items() if d["exit"] == 1]
-    meta["ran"] = "tools/try_seed.py %s %s --checks %s --tier %s" % (pid, k, ",".join(checks), tier)
+    meta["ran"] = "tools/try_seed.py %s %s --checks %s --tier %s%s" % (pid, k, ",".join(checks), tier, " --via-worktree (patched scratch worktree imported through PYTHONPATH; /repo untouched)" if via_worktree else "")
     outd = os.path.join(VERIF, "seeded", "%s%s-%s" % (prefix, pid, k))
     os.makedirs(outd, exist_ok=True)
     if os.path.exists(patch):
